@@ -18,6 +18,7 @@ package sim
 //@   loop 1 invariant forall(p, 0, i, forall(c, 0, n, res.elem(p, c) == params[p])) && forall(c, 0, j, res.elem(i, c) == params[i])
 
 //@ func (modelValues).Find(vals, name, defaultValue) returns (v, msg)
+//@   canary [C17.canary-find] v == defaultValue
 //@   assigns nothing
 //@   ensures [C17.find-value] (exists(k, 0, len(vals), vals[k].Name == name && v == vals[k].Value && forall(q, 0, k, vals[q].Name != name))) || (forall(k, 0, len(vals), vals[k].Name != name) && v == defaultValue)
 //@   loop 0 invariant -1 <= rangeindex && rangeindex < len(vals) && forall(q, 0, rangeindex + 1, vals[q].Name != name)
